@@ -105,4 +105,9 @@ CLAIMED = {
   "text": "Sound static decision of the repository's own JOSE glue: algorithm tables agree between siblings and with RFC 7518, payload/plaintext are released only behind the verification/decryption/tag-comparison gates, failure is decided by errors not by plaintext nil-ness, authenticated bytes are the received header, fixed-width ECDSA components. The cryptographic behaviour across the algorithm matrix and bit flips is not decided (crypto/* trusted).",
   "note": "Tables must stay switch statements (otherwise 'undecided'); RFC 7518 tables transcribed in DESIGN Appendix B.",
  },
+ "C07": {
+  "technique": "bit-provenance abstract interpretation of every decoder on a fully symbolic input (all paths; lengths and bytes symbolic) plus dominating-guard/mask/type-range bounds proving of every index, slice and make reachable from the decoder entry points; enum methods interpreted over their whole integer range; dominator rules for panicking library preconditions and JSON-populated pointers; call-graph (VTA) rules for reachable explicit panics and for re-traversal inside the recursive decoder; loop-variant recognition",
+  "text": "Sound static decision of the panic-freedom and structural termination/complexity clauses: every out-of-range-capable instruction of the media/AMF0/RTMP decoders, the WebSocket frame reader, the JSON+ scanner and the JOSE unwrap/CBC/padding helpers is proven in range or discharged by a listed contract with its reason; enum helpers total; peer-controlled nonce/key lengths checked before panicking library calls; JSON-populated pointers tested before use; no reachable explicit panic except listed traps whose guards are checked; no second recursive traversal per decoded element (the shape that makes nested input quadratic); every decoder loop has a recognised variant. Not decided: internals of encoding/json, encoding/asn1, compress/flate, crypto/*, bufio (trusted); measured time; stack depth; 32-bit int overflow (GOARCH=386 not analysed).",
+  "note": "Contracts (c07Contracts, c07Loops, c07PanicGuards in checker/internal/rules/c07.go) are keyed by function and ordinal of the site kind, each with a reason; a new unproven site, loop or panic fails the check.",
+ },
 }
